@@ -128,6 +128,21 @@ def run(chk, repo, tier):
                     ok = any(isinstance(n.ast, ast.Delete) and any(unparse(t) == tgt for t in n.ast.targets)
                              and cfg.dominates(d.id, n.id) for n in cfg.nodes.values())
                     if not ok:
+                        # `if c[k] > 1: c[k] -= 1  else: del c[k]`: the decrement never reaches zero, the other branch deletes
+                        for t_ in [n for n in cfg.nodes.values() if n.kind == 'test']:
+                            c_ = t_.ast
+                            if not (isinstance(c_, ast.Compare) and len(c_.ops) == 1 and unparse(c_.left) == tgt
+                                    and isinstance(c_.comparators[0], ast.Constant)):
+                                continue
+                            v_ = c_.comparators[0].value
+                            above_one = {ast.Gt: v_ == 1, ast.GtE: v_ == 2, ast.NotEq: v_ == 1}.get(type(c_.ops[0]), False)
+                            at_one = {ast.Eq: v_ == 1, ast.LtE: v_ == 1, ast.Lt: v_ == 2}.get(type(c_.ops[0]), False)
+                            for lab_dec, lab_del, cond in (('true', 'false', above_one), ('false', 'true', at_one)):
+                                if cond and cfg.edge_dominates(t_.id, lab_dec, d.id) and any(
+                                        isinstance(n.ast, ast.Delete) and any(unparse(t) == tgt for t in n.ast.targets)
+                                        and cfg.edge_dominates(t_.id, lab_del, n.id) for n in cfg.nodes.values()):
+                                    ok = True
+                    if not ok:
                         chk.violation(L3, rel, f.qualname, f'{unparse(d.ast)} without `del {tgt}` at zero',
                                       'zero-count entries are not removed although bool(counter) is used as '
                                       '"nobody holds"', line=d.line,
